@@ -258,6 +258,7 @@ func c02Loop(l *core.Ledger, r *rt, rl *replyLoop) {
 	// where the call's context is known to have ended: the ctx.Done() case of the loop's
 	// select, and the non-nil edge of every test of that context's Err()
 	ctxEndedEdges := []sx.Edge{rl.ctxEdge}
+	var ctxAliveEdges []sx.Edge
 	if rl.hasCtx {
 		mErr := func(o sx.Origin) bool {
 			cc, ok := o.V.(*ssa.Call)
@@ -266,6 +267,7 @@ func c02Loop(l *core.Ledger, r *rt, rl *replyLoop) {
 		sx.AllInstrs(rl.fn, func(_ sx.Node, in ssa.Instruction) {
 			if ifi, ok := in.(*ssa.If); ok && isErrNonNil(ifi, mErr) != 0 {
 				ctxEndedEdges = append(ctxEndedEdges, errEdge(ifi, mErr, true))
+				ctxAliveEdges = append(ctxAliveEdges, errEdge(ifi, mErr, false))
 			}
 		})
 	}
@@ -308,6 +310,11 @@ func c02Loop(l *core.Ledger, r *rt, rl *replyLoop) {
 		case fields["cause"] != nil && sx.All(cause, sx.IsGlobalNamed("Incomplete")):
 			nEx++
 			l.Check(c.under(rl.fn, exEdges), "C02-T1", k, pos, "Incomplete only under the exhaustion test", "Incomplete is reported on a path where the exhaustion test did not hold (some targeted node may still answer)")
+			if rl.hasCtx {
+				// requests of an ended context are answered locally, one error per node (enqueue, sendMsg):
+				// those answers exhaust the call, and the select may see them before ctx.Done()
+				l.Check(c.under(rl.fn, ctxAliveEdges), "C02-T1", k+"/ctx-alive", pos, "Incomplete only where the context was seen not to have ended", "Incomplete is reported without looking at the call's context: when the context ends before or while the requests are queued every node is answered locally with the context's error, the loop counts them and reports 'incomplete call' although the context ended first - and errors.Is(err, ctx.Err()) is false")
+			}
 		case fields["cause"] != nil && rl.hasCtx && sx.All(cause, func(o sx.Origin) bool {
 			cc, ok := o.V.(*ssa.Call)
 			return o.Kind == sx.KCall && ok && cc.Call.IsInvoke() && cc.Call.Method.Name() == "Err" && cc.Call.Value == rl.ctxVal
@@ -781,6 +788,7 @@ func c02T7(l *core.Ledger, r *rt) {
 		tru
 		fls
 	)
+	assumeEqual := true
 	var eval func(v ssa.Value, pred *ssa.BasicBlock, depth int) int
 	eval = func(v ssa.Value, pred *ssa.BasicBlock, depth int) int {
 		if depth > 8 {
@@ -797,7 +805,7 @@ func c02T7(l *core.Ledger, r *rt) {
 		case *ssa.BinOp:
 			if x.Op == token.EQL || x.Op == token.NEQ {
 				if (isCause(x.X) && isTarget(x.Y)) || (isCause(x.Y) && isTarget(x.X)) {
-					if x.Op == token.EQL {
+					if (x.Op == token.EQL) == assumeEqual {
 						return tru
 					}
 					return fls
@@ -814,7 +822,10 @@ func c02T7(l *core.Ledger, r *rt) {
 			}
 		case *ssa.Call:
 			if sx.StaticCalleeName(&x.Call) == "errors.Is" && len(x.Call.Args) == 2 && isCause(x.Call.Args[0]) && isTarget(x.Call.Args[1]) {
-				return tru
+				if assumeEqual {
+					return tru
+				}
+				return fls
 			}
 		case *ssa.Extract:
 			// "target.(T)" with T declared in this package: the causes this rule is about are not gorums types
@@ -887,6 +898,47 @@ func c02T7(l *core.Ledger, r *rt) {
 		default:
 			for _, su := range s.b.Succs {
 				work = append(work, st{su, s.b})
+			}
+		}
+	}
+	// the other direction: a target that the cause neither is nor wraps is not matched (an Is
+	// that answers true for everything makes a context error pass for Incomplete and vice versa)
+	if ok && n > 0 {
+		assumeEqual = false
+		seen = map[st]bool{}
+		work = []st{{fn.Blocks[0], nil}}
+		for len(work) > 0 {
+			s := work[len(work)-1]
+			work = work[:len(work)-1]
+			if seen[s] {
+				continue
+			}
+			seen[s] = true
+			last := s.b.Instrs[len(s.b.Instrs)-1]
+			switch t := last.(type) {
+			case *ssa.Return:
+				v := t.Results[0]
+				pred := s.pred
+				if ph, isPhi := v.(*ssa.Phi); isPhi && ph.Block() != s.b {
+					pred = nil
+				}
+				if eval(v, pred, 0) != fls {
+					l.Check(false, "C02-T7", "gorums.(QuorumCallError).Is", sx.PosOf(t), "", "QuorumCallError.Is can answer true for a target that is not the cause: errors.Is no longer tells Incomplete, a context error and other errors apart")
+					return
+				}
+			case *ssa.If:
+				switch eval(t.Cond, s.pred, 0) {
+				case tru:
+					work = append(work, st{s.b.Succs[0], s.b})
+				case fls:
+					work = append(work, st{s.b.Succs[1], s.b})
+				default:
+					work = append(work, st{s.b.Succs[0], s.b}, st{s.b.Succs[1], s.b})
+				}
+			default:
+				for _, su := range s.b.Succs {
+					work = append(work, st{su, s.b})
+				}
 			}
 		}
 	}
